@@ -107,6 +107,8 @@ func (m *paceMonitor) check() (string, string) {
 			if b := m.cl.blockByHash(qc.BlockHash()); b != nil {
 				if real := m.cl.realSigners(b.ToBytes(), m.cl.StepNo); len(real) < q {
 					return "pace:highqc-without-evidence", fmt.Sprintf("%s: the high QC moved to %s, which only %v really signed (quorum %d)", who, blockName(b), SortedIDs(real), q)
+				} else if why := m.cl.certificateInvalid(qc, b, real); why != "" {
+					return "pace:highqc-invalid", fmt.Sprintf("%s: the high QC moved to a certificate for %s that is not valid: %s", who, blockName(b), why)
 				}
 			}
 		}
@@ -229,7 +231,7 @@ func c07Prop(c Case) common.Result {
 
 func genC07(rt *rapid.T) Case {
 	o := GenOpts{Actor: true, Twins: true, ByView: true, MaxSteps: 140, MinFaulty: 1, ActorBias: 30,
-		ActorWeights: map[int]int{AProposeHonest: 3, AProposeWeird: 2, AVote: 1, AAssembleQC: 5, ARelabelQC: 7, ATimeout: 7, ANewView: 10,
+		ActorWeights: map[int]int{AProposeHonest: 3, AProposeWeird: 2, AVote: 1, AAssembleQC: 5, ARelabelQC: 7, ATimeout: 7, ANewView: 10, AProposeRelabelledSigners: 4,
 			ARepeatQC: 4, AReplay: 5, AEquivocate: 1, AToggleFetch: 1, AVoteHonestly: 3, AForgedTC: 7, AProposeSkip: 1, AProposeStaleQC: 2, AProposeOnForged: 3}}
 	cfg := GenConfig(rt, o)
 	return Case{Cfg: cfg, Steps: GenSchedule(rt, cfg, o)}
